@@ -631,6 +631,17 @@ pub fn read_cases() -> Vec<ReadCase> {
         expect: vec![format!("HEADERS sid=1 eos=false {}", small_sum), format!("DATA sid=1 eos=false {}", dsum(1, 5)), format!("DATA sid=1 eos=false {}", dsum(1, 5)), format!("DATA sid=1 eos=false {}", dsum(1, 5)), format!("DATA sid=1 eos=true {}", dsum(1, 0))],
         max_recv: 16384,
     });
+    // padded PUSH_PROMISE: Pad Length 0 and 3 (Pad Length octet, promised stream id, block, padding)
+    {
+        let pp = |pad: u8| -> wf::RawFrame {
+            let mut p = vec![pad];
+            p.extend_from_slice(&2u32.to_be_bytes());
+            p.extend_from_slice(&block_small);
+            p.extend(std::iter::repeat(0u8).take(pad as usize));
+            wf::RawFrame::new(wf::ty::PUSH_PROMISE, wf::flag::PADDED | wf::flag::END_HEADERS, 1, p)
+        };
+        v.push(ReadCase { name: "padded-push-promise".into(), wire: cat(&[pp(0), pp(3)]), expect: vec![format!("PUSH_PROMISE sid=1 promised=2 {}", small_sum), format!("PUSH_PROMISE sid=1 promised=2 {}", small_sum)], max_recv: 16384 });
+    }
     v.push(ReadCase {
         name: "max-size-data".into(),
         wire: cat(&[wf::data(1, &payload_bytes(1, 16384), false), wf::data(1, &[], true)]),
@@ -858,7 +869,7 @@ pub fn run(ctx: &Ctx) -> Outcome {
         let max_dev = if quick { 3 } else { 4 };
         let share = ((budget * 0.75 - ctx.elapsed()).max(1.0)) / (rcases.len() - i) as f64;
         let h = ReadHarness { case, index: i, baseline: base.got.clone() };
-        let cfg = if quick { ExploreCfg::work_bounded(max_dev, std::time::Instant::now() + std::time::Duration::from_secs_f64(ctx.remaining().max(1.0)), false, 400_000) } else { ExploreCfg::new(max_dev, std::time::Instant::now() + std::time::Duration::from_secs_f64(share), false) };
+        let cfg = if quick { ExploreCfg::work_bounded(max_dev, std::time::Instant::now() + std::time::Duration::from_secs_f64(ctx.remaining().max(1.0)), false, 250_000) } else { ExploreCfg::new(max_dev, std::time::Instant::now() + std::time::Duration::from_secs_f64(share), false) };
         let rep = explore(&h, &cfg);
         if rep.partial_level.is_some() || rep.completed_level != Some(max_dev) {
             all_complete = false;
